@@ -173,7 +173,7 @@ def h5_export(sc, d, rep, tier, export=True, invs=None):
             "Alphabet": tla_set(alpha), "MaxLen": maxlen,
             "Openers": "{" + ", ".join(tla_seq(p) for p in prefixes) + "}",
             "CtxSet": tla_set(list(ctxs)), "DoExport": "TRUE" if export else "FALSE"},
-            invariants=invs or H5_INVS, properties=["StepVariant"], timeout=3000, workers=5, heap="6g", extra=["-continue"])
+            invariants=invs or H5_INVS, properties=["StepVariant", "RefinesAbs"], timeout=3000, workers=5, heap="6g", extra=["-continue"])
         tlc_sound(res, "Html5/" + name)
         return res
 
@@ -188,6 +188,17 @@ def h5_export(sc, d, rep, tier, export=True, invs=None):
                  contexts=list(ctxs), behaviours=len(got))
         beh += got
     return beh
+
+
+def h5_abstraction(sc, d, rep, no_lt_eq):
+    """The finite control abstraction Html5Abs (unbounded input length), explored exhaustively."""
+    name = "Html5Abs/" + ("nolteq" if no_lt_eq else "any")
+    res = vlib.tlc_mc(sc, d, "Html5Abs", "H5Abs_" + ("T" if no_lt_eq else "F"), {"NoLtEq": "TRUE" if no_lt_eq else "FALSE"},
+                      invariants=["DepthBounded", "NeverFires", "NoMarkupWithoutLt"], timeout=600, workers=4)
+    if not res.ok:
+        rep.notes.append("model_counterexample: %s: %s violated on the abstraction" % (name, res.violated))
+    rep.add_tlc(name, res)
+    rep.part(name, unbounded_input_length=True, holds=bool(res.ok))
 
 
 def xss_inputs(tier, salt):
@@ -532,6 +543,7 @@ def c15(tier, sc):
     big = tier == "thorough"
     S = vgen.b
     tmpl = [[b for b in t if b not in (60, 61)] for t in xss_templates(200)]
+    h5_abstraction(sc, d, rep, True)         # no '<', no '=': no firing token reachable, inputs of any length
     cases = xss_props(sc, d, rep, "c15", "c15", S(">/'\"`!-?%[]\x00 a&#;x1:"), 4 if big else 3, templates=tmpl)
     cases += xss_props(sc, d, rep, "c15attr", "c15", S(">/' a\"`"), 7 if big else 6)
     inputs = [c["in"] for c in cases]
@@ -723,6 +735,7 @@ def c02(tier, sc):
     # (1) model: every state of the tokenizer x classifier over all short inputs satisfies the
     # totality invariants; every enumerated input is then given to the real IsXSS
     beh = h5_export(sc, d, rep, tier, invs=H5_INVS)
+    h5_abstraction(sc, d, rep, False)        # call depth bounded for inputs of any length (refinement checked by RefinesAbs)
     inputs = list(vgen.dedup(b["in"] for b in beh))
     # (2) every construct cut at every offset, mutations, fragment walks
     extra = xss_inputs(tier, "c02")
@@ -743,7 +756,7 @@ def c02(tier, sc):
                S("<!--"), S("<![CDATA["), S("<%"), S("<?"), S("<a b='c'"), S("<a/")]
     exported = xss_props(sc, d, rep, "pump", "pump", sig, 2, prefixes=openers)
     cases = pump_cases_from(exported)
-    size = (1 << 20) if big else (64 << 10)
+    size = (1 << 20) if big else (256 << 10)
     maxstack = (16 << 20) if big else (2 << 20)
     problems = run_pumps(sc, vh, "xss-pump", cases, size, maxstack)
     for idx, how, detail in problems:
